@@ -1314,7 +1314,10 @@ static void union_initializer(Token **rest, Token *tok, Initializer *init) {
 //             | struct-initializer | union-initializer
 //             | assign
 static void initializer2(Token **rest, Token *tok, Initializer *init) {
-  if (init->ty->kind == TY_ARRAY && tok->kind == TK_STR) {
+  // A string literal initializes an array of character type as a whole.
+  // For any other array (e.g. `char *names[2]` or `char lines[2][8]`
+  // reached by brace elision) it is the initializer of the first element.
+  if (init->ty->kind == TY_ARRAY && is_integer(init->ty->base) && tok->kind == TK_STR) {
     string_initializer(rest, tok, init);
     return;
   }
